@@ -1,10 +1,637 @@
 package main
 
 import (
+	"bytes"
+	"encoding/json"
+	"flag"
+	"fmt"
+	"os"
 	"os/exec"
+	"path/filepath"
+	"sort"
+	"strings"
+	"time"
+
+	"gosym/interp"
+	"gosym/smt"
 )
 
 func lookPath(s string) (string, error) { return exec.LookPath(s) }
 
-func cmdCheck(args []string) int  { return 2 }
-func cmdReplay(args []string) int { return 2 }
+// ---- registry -------------------------------------------------------------
+
+type HarnessSpec struct {
+	ID        string         `json:"id"`
+	Func      string         `json:"func"` // "execution/scan.VerifH02a"
+	Tiers     []string       `json:"tiers,omitempty"`
+	Explore   *int           `json:"explore,omitempty"`
+	ExploreT  *int           `json:"explore_thorough,omitempty"`
+	MaxFaults *int           `json:"max_faults,omitempty"`
+	Abstract  bool           `json:"abstract,omitempty"`
+	NoReplay  bool           `json:"no_replay,omitempty"` // findings are schedule events (replayed inside gosym only)
+	Params    map[string]int `json:"params,omitempty"`
+	ParamsT   map[string]int `json:"params_thorough,omitempty"`
+	MaxPaths  int            `json:"max_paths,omitempty"`
+	Bounds    string         `json:"bounds,omitempty"`
+	BoundsT   string         `json:"bounds_thorough,omitempty"`
+	Outside   string         `json:"outside,omitempty"`
+	MaxSteps  int64          `json:"max_steps,omitempty"`
+	AssertMs  int            `json:"assert_ms,omitempty"`
+}
+
+type PropertySpec struct {
+	Harnesses   []HarnessSpec `json:"harnesses"`
+	Assumptions []string      `json:"assumptions,omitempty"`
+}
+
+type KnownFinding struct {
+	ID       string `json:"id"`
+	Property string `json:"property"`
+	Status   string `json:"status"` // open | fixed
+	Harness  string `json:"harness,omitempty"`
+	Site     string `json:"site,omitempty"`
+	What     string `json:"what"`
+	Commit   string `json:"commit,omitempty"`
+	Witness  string `json:"witness,omitempty"`
+}
+
+func readJSON(path string, v interface{}) error {
+	b, err := os.ReadFile(path)
+	if err != nil {
+		return err
+	}
+	return json.Unmarshal(b, v)
+}
+
+// ---- evidence -------------------------------------------------------------
+
+type Evidence struct {
+	PropertyID  string                 `json:"property_id"`
+	Tier        string                 `json:"tier"`
+	Seed        int                    `json:"seed"`
+	Level       string                 `json:"level"`
+	Coverage    map[string]interface{} `json:"coverage"`
+	Assumptions []string               `json:"assumptions"`
+	WallS       float64                `json:"wall_s"`
+	Violations  int                    `json:"violations"`
+}
+
+type replayFile struct {
+	Property string            `json:"property"`
+	Harness  string            `json:"harness"`
+	Func     string            `json:"func"`
+	Site     string            `json:"site"`
+	Kind     string            `json:"kind"`
+	Msg      string            `json:"msg"`
+	Inputs   map[string]string `json:"inputs"`
+	Choices  map[string]int    `json:"choices"`
+	Tier     string            `json:"tier"`
+	Params   map[string]int    `json:"params"`
+	Decision []int             `json:"decisions"`
+	Explore  int               `json:"explore"`
+}
+
+func cmdCheck(args []string) int {
+	fs := flag.NewFlagSet("check", flag.ExitOnError)
+	prop := fs.String("property", "", "property id, e.g. C02")
+	tier := fs.String("tier", "quick", "quick|thorough")
+	workers := fs.Int("workers", 16, "parallel workers")
+	only := fs.String("only", "", "run only this harness id")
+	noEvidence := fs.Bool("no-evidence", false, "do not write the evidence file")
+	fs.Parse(args)
+	t0 := time.Now()
+	seed := 0
+	if s := os.Getenv("VERIF_SEED"); s != "" {
+		fmt.Sscan(s, &seed)
+	}
+
+	var reg map[string]PropertySpec
+	if err := readJSON(filepath.Join(harnessDir, "registry.json"), &reg); err != nil {
+		fmt.Fprintln(os.Stderr, "registry:", err)
+		return 2
+	}
+	spec, ok := reg[*prop]
+	if !ok {
+		fmt.Fprintln(os.Stderr, "no harnesses registered for", *prop)
+		return 2
+	}
+	var known []KnownFinding
+	readJSON(filepath.Join(verifDir, "known_findings.json"), &known)
+	knownOpen := map[string]bool{}
+	knownByID := map[string]KnownFinding{}
+	for _, k := range known {
+		knownByID[k.ID] = k
+		if k.Status == "open" {
+			knownOpen[k.ID] = true
+		}
+	}
+
+	_, _, pkgs, err := buildOverlay()
+	if err != nil {
+		fmt.Fprintln(os.Stderr, err)
+		return 2
+	}
+	l, err := load(pkgs)
+	if err != nil {
+		fmt.Println("INCONCLUSIVE:", err)
+		return 2
+	}
+	loadS := time.Since(t0).Seconds()
+
+	var (
+		problems    []string
+		violations  int
+		totalPaths  int
+		totalDec    int
+		totalAssert int
+		stats       smt.Stats
+		samples     []interface{}
+		funcs       = map[string]bool{}
+		bounds      = map[string]string{}
+		outside     = map[string]string{}
+		validated   int
+		knownSeen   = map[string]string{}
+		perHarness  = map[string]interface{}{}
+		violLines   []string
+	)
+	for _, h := range spec.Harnesses {
+		if *only != "" && h.ID != *only {
+			continue
+		}
+		if len(h.Tiers) > 0 && !contains(h.Tiers, *tier) {
+			continue
+		}
+		fn, err := findFunc(l.prog, h.Func)
+		if err != nil {
+			fmt.Println("INCONCLUSIVE:", err)
+			problems = append(problems, err.Error())
+			continue
+		}
+		opts := defaultOpts(*tier)
+		opts.KnownOpen = knownOpen
+		opts.Seed = int64(seed)
+		if h.Explore != nil {
+			opts.Explore = *h.Explore
+		}
+		if *tier == "thorough" && h.ExploreT != nil {
+			opts.Explore = *h.ExploreT
+		}
+		if h.MaxFaults != nil {
+			opts.MaxFaults = *h.MaxFaults
+		}
+		if h.MaxSteps > 0 {
+			opts.MaxSteps = h.MaxSteps
+		}
+		if h.AssertMs > 0 {
+			opts.AssertTimeMs = h.AssertMs
+		}
+		for k, v := range h.Params {
+			opts.Params[k] = v
+		}
+		if *tier == "thorough" {
+			for k, v := range h.ParamsT {
+				opts.Params[k] = v
+			}
+		}
+		smt.Abstract = h.Abstract
+		maxPaths := h.MaxPaths
+		if maxPaths == 0 {
+			maxPaths = 400000
+		}
+		budget := 20 * time.Minute
+		if *tier == "thorough" {
+			budget = 3 * time.Hour
+		}
+		sum := interp.Explore(l.world, fn, opts, *workers, maxPaths, budget)
+		fmt.Printf("[%s %s] ", *prop, h.ID)
+		printSummary(sum)
+		totalPaths += sum.Paths
+		totalDec += sum.Decisions
+		totalAssert += sum.Asserts
+		stats.Merge(sum.Stats)
+		for f := range sum.Funcs {
+			funcs[f] = true
+		}
+		b := h.Bounds
+		if *tier == "thorough" && h.BoundsT != "" {
+			b = h.BoundsT
+		}
+		bounds[h.ID] = b
+		if h.Outside != "" {
+			outside[h.ID] = h.Outside
+		}
+		for _, p := range sum.Problems {
+			problems = append(problems, h.ID+": "+p)
+		}
+		if len(sum.Reached) == 0 {
+			problems = append(problems, h.ID+": vacuous — no Reached site on any feasible path")
+		}
+		for _, s := range sum.Samples {
+			if len(samples) < 8 {
+				s["harness"] = h.ID
+				samples = append(samples, s)
+			}
+		}
+		for _, f := range sum.Known {
+			if _, seen := knownSeen[f.KnownID]; !seen {
+				knownSeen[f.KnownID] = fmt.Sprintf("%s %s inputs=%v", h.ID, f.Site, f.Inputs)
+			}
+		}
+		perHarness[h.ID] = map[string]interface{}{
+			"paths": sum.Paths, "outcomes": sum.ByOutcome, "asserts": sum.Asserts, "assert_sites": sum.AssertSites,
+			"reached": sum.Reached, "wall_s": round(sum.WallS), "solver_queries": sum.Stats.Queries, "solver_s": round(sum.Stats.TimeS),
+		}
+
+		// ---- native replay of findings
+		bySite := map[string][]interp.Finding{}
+		var sites []string
+		for _, f := range sum.Findings {
+			k := f.Kind + " " + f.Site
+			if _, ok := bySite[k]; !ok {
+				sites = append(sites, k)
+			}
+			bySite[k] = append(bySite[k], f)
+		}
+		sort.Strings(sites)
+		var rp *replayer
+		for _, k := range sites {
+			fsite := bySite[k]
+			reproduced := false
+			var lastOut string
+			for n, f := range fsite {
+				if n >= 4 {
+					break
+				}
+				rf := replayFile{Property: *prop, Harness: h.ID, Func: h.Func, Site: f.Site, Kind: f.Kind, Msg: f.Msg,
+					Inputs: f.Inputs, Choices: f.Choices, Tier: *tier, Params: opts.Params, Decision: f.Decisions, Explore: opts.Explore}
+				path := filepath.Join(verifDir, "replays", *prop, sanitize(h.ID+"-"+f.Site)+fmt.Sprintf("-%d.json", n))
+				os.MkdirAll(filepath.Dir(path), 0o755)
+				bb, _ := json.MarshalIndent(rf, "", " ")
+				os.WriteFile(path, bb, 0o644)
+				if h.NoReplay || f.Kind == "deadlock" || f.Kind == "leak" || f.Kind == "race" || f.Kind == "write-ro" {
+					// schedule / executor events: the decision vector replays them inside gosym
+					violLines = append(violLines, fmt.Sprintf("VIOLATION property=%s replay=%s", *prop, path))
+					fmt.Printf("  %s %s: %s (executor event; replay inside gosym: gosym replay %s)\n", f.Kind, f.Site, f.Msg, path)
+					reproduced = true
+					violations++
+					break
+				}
+				if rp == nil {
+					rp, err = newReplayer(h.Func)
+					if err != nil {
+						problems = append(problems, h.ID+": cannot build native replay binary: "+err.Error())
+						break
+					}
+				}
+				ok, out := rp.run(path, f.Kind)
+				validated++
+				lastOut = out
+				if ok {
+					violLines = append(violLines, fmt.Sprintf("VIOLATION property=%s replay=%s", *prop, path))
+					fmt.Printf("  %s %s reproduced natively: %s\n", f.Kind, f.Site, firstLine(out))
+					reproduced = true
+					violations++
+					break
+				}
+				os.Remove(path)
+			}
+			if !reproduced {
+				problems = append(problems, fmt.Sprintf("%s: counterexample at %s did not reproduce natively (encoding or stub error?): %s", h.ID, k, firstLine(lastOut)))
+			}
+		}
+		// ---- translator validation: models of passing paths must pass natively
+		if len(sum.Witnesses) > 0 && !h.NoReplay {
+			if rp == nil {
+				rp, err = newReplayer(h.Func)
+				if err != nil {
+					problems = append(problems, h.ID+": cannot build native replay binary: "+err.Error())
+				}
+			}
+			if rp != nil {
+				for n, wt := range sum.Witnesses {
+					rf := replayFile{Property: *prop, Harness: h.ID, Func: h.Func, Site: "witness", Kind: "witness",
+						Inputs: wt.Inputs, Choices: wt.Choices, Tier: *tier, Params: opts.Params, Decision: wt.Decisions}
+					path := filepath.Join(verifDir, ".cache", "witness", fmt.Sprintf("%s-%s-%d.json", *prop, h.ID, n))
+					os.MkdirAll(filepath.Dir(path), 0o755)
+					bb, _ := json.Marshal(rf)
+					os.WriteFile(path, bb, 0o644)
+					failed, out := rp.run(path, "assert")
+					validated++
+					if failed {
+						problems = append(problems, fmt.Sprintf("%s: translator validation failed — native run of a path the encoder passed reports: %s (inputs %v choices %v)", h.ID, firstLine(out), wt.Inputs, wt.Choices))
+					}
+				}
+			}
+		}
+		if rp != nil {
+			rp.close()
+		}
+	}
+
+	var ids []string
+	for id := range knownSeen {
+		ids = append(ids, id)
+	}
+	sort.Strings(ids)
+	for _, id := range ids {
+		fmt.Printf("KNOWN-FINDING: property=%s %s %s\n", *prop, id, knownByID[id].What)
+	}
+	for _, v := range violLines {
+		fmt.Println(v)
+	}
+	for _, p := range problems {
+		fmt.Println("INCONCLUSIVE:", p)
+	}
+
+	if !*noEvidence {
+		var fl []string
+		for f := range funcs {
+			fl = append(fl, f)
+		}
+		sort.Strings(fl)
+		if len(samples) == 0 {
+			samples = append(samples, map[string]interface{}{"note": "no passing path with assertions"})
+		}
+		ev := Evidence{
+			PropertyID: *prop, Tier: *tier, Seed: seed, Level: "model_checking",
+			Coverage: map[string]interface{}{
+				"states":                        maxInt(totalPaths, 1),
+				"transitions":                   maxInt(totalDec, 1),
+				"traces_validated_against_impl": validated,
+				"samples":                       samples,
+				"obligations":                   totalAssert,
+				"explanation":                   "states = symbolic paths completed (each closed by solver verdicts over all values of its symbolic inputs); transitions = branch/choice decisions; obligations = assertion instances discharged (unsat of pc ∧ ¬assert)",
+				"harnesses":                     perHarness,
+				"functions_encoded":             fl,
+				"bounds":                        bounds,
+				"outside_bounds":                outside,
+				"queries":                       map[string]interface{}{"total": stats.Queries, "sat": stats.Sat, "unsat": stats.Unsat, "unknown": stats.Unknown, "portfolio_fallbacks": stats.Fallback, "errors": stats.Errors},
+				"solver_time_s":                 round(stats.TimeS),
+				"solver_max_query_s":            round(stats.MaxS),
+				"solvers":                       "z3-new 5.1.0 incremental (primary); cvc5 1.0.x, z3 4.8.12 (portfolio on unknown)",
+				"source_hashes":                 l.hash,
+				"known_findings_seen":           ids,
+				"inconclusive":                  problems,
+				"load_s":                        round(loadS),
+			},
+			Assumptions: spec.Assumptions,
+			WallS:       round(time.Since(t0).Seconds()),
+			Violations:  violations,
+		}
+		os.MkdirAll(filepath.Join(verifDir, "evidence"), 0o755)
+		bb, _ := json.MarshalIndent(ev, "", " ")
+		os.WriteFile(filepath.Join(verifDir, "evidence", *prop+".json"), bb, 0o644)
+	}
+	switch {
+	case violations > 0:
+		return 1
+	case len(problems) > 0:
+		return 2
+	}
+	fmt.Printf("OK property=%s tier=%s paths=%d asserts=%d wall=%.1fs\n", *prop, *tier, totalPaths, totalAssert, time.Since(t0).Seconds())
+	return 0
+}
+
+func round(f float64) float64 { return float64(int(f*100)) / 100 }
+
+func maxInt(a, b int) int {
+	if a > b {
+		return a
+	}
+	return b
+}
+
+func contains(xs []string, x string) bool {
+	for _, y := range xs {
+		if y == x {
+			return true
+		}
+	}
+	return false
+}
+
+func sanitize(s string) string {
+	var b strings.Builder
+	for _, c := range s {
+		switch {
+		case c >= 'a' && c <= 'z', c >= 'A' && c <= 'Z', c >= '0' && c <= '9', c == '-', c == '_', c == '.':
+			b.WriteRune(c)
+		default:
+			b.WriteByte('_')
+		}
+	}
+	if b.Len() > 120 {
+		return b.String()[:120]
+	}
+	return b.String()
+}
+
+func firstLine(s string) string {
+	s = strings.TrimSpace(s)
+	for _, l := range strings.Split(s, "\n") {
+		if strings.Contains(l, "ASSERT-FAILED") || strings.Contains(l, "panic:") || strings.Contains(l, "fatal error") {
+			return strings.TrimSpace(l)
+		}
+	}
+	if i := strings.Index(s, "\n"); i > 0 {
+		return s[:i]
+	}
+	return s
+}
+
+// ---- native replay ----------------------------------------------------------
+
+type replayer struct {
+	bin string
+	dir string
+	fn  string
+}
+
+// newReplayer builds (once) a test binary for the package of the harness function
+// against /repo's current tree with the harness files overlaid.
+func newReplayer(full string) (*replayer, error) {
+	dot := strings.LastIndex(full, ".")
+	pkgRel, fn := full[:dot], full[dot+1:]
+	_, real, _, err := buildOverlay()
+	if err != nil {
+		return nil, err
+	}
+	dir := filepath.Join(verifDir, ".cache", "replay", sanitize(pkgRel))
+	os.MkdirAll(dir, 0o755)
+	// generate the test driver
+	pkgName, err := packageName(filepath.Join(repoDir, pkgRel))
+	if err != nil {
+		return nil, err
+	}
+	names, err := harnessFuncs(filepath.Join(harnessDir, pkgRel))
+	if err != nil {
+		return nil, err
+	}
+	var tb bytes.Buffer
+	fmt.Fprintf(&tb, "package %s\n\nimport (\n\t\"os\"\n\t\"testing\"\n\n\tsym \"%s/zzverif/sym\"\n)\n\n", pkgName, modPath)
+	fmt.Fprintf(&tb, "var verifHarnesses = map[string]func(){\n")
+	for _, n := range names {
+		fmt.Fprintf(&tb, "\t%q: %s,\n", n, n)
+	}
+	fmt.Fprintf(&tb, "}\n\nfunc TestVerifReplay(t *testing.T) {\n\tf := verifHarnesses[os.Getenv(\"VERIF_HARNESS\")]\n\tif f == nil {\n\t\tt.Fatalf(\"no harness\")\n\t}\n\tsym.Reset()\n\tf()\n\tif len(sym.Failures) > 0 {\n\t\tt.Fatalf(\"ASSERT-FAILED %%v\", sym.Failures)\n\t}\n}\n")
+	testFile := filepath.Join(dir, "replay_test.go")
+	if err := os.WriteFile(testFile, tb.Bytes(), 0o644); err != nil {
+		return nil, err
+	}
+	ov := map[string]map[string]string{"Replace": {}}
+	for virt, r := range real {
+		ov["Replace"][virt] = r
+	}
+	ov["Replace"][filepath.Join(repoDir, pkgRel, "zz_verif_replay_test.go")] = testFile
+	ob, _ := json.Marshal(ov)
+	ovFile := filepath.Join(dir, "overlay.json")
+	os.WriteFile(ovFile, ob, 0o644)
+	bin := filepath.Join(dir, "replay.test")
+	cmd := exec.Command("go", "test", "-c", "-vet=off", "-overlay", ovFile, "-o", bin, "./"+pkgRel)
+	cmd.Dir = repoDir
+	cmd.Env = goEnv()
+	out, err := cmd.CombinedOutput()
+	if err != nil {
+		return nil, fmt.Errorf("go test -c: %v: %s", err, string(out))
+	}
+	return &replayer{bin: bin, dir: dir, fn: fn}, nil
+}
+
+// run executes the harness natively on the replay file; returns whether the failure
+// (assertion failure, or a crash for kind "panic") was observed.
+func (r *replayer) run(replayPath, kind string) (bool, string) {
+	cmd := exec.Command(r.bin, "-test.run", "^TestVerifReplay$", "-test.count=1", "-test.timeout=120s")
+	cmd.Env = append(os.Environ(), "VERIF_REPLAY="+replayPath, "VERIF_HARNESS="+r.fn)
+	cmd.Dir = r.dir
+	out, err := cmd.CombinedOutput()
+	s := string(out)
+	if err == nil {
+		return false, s
+	}
+	if strings.Contains(s, "ASSERT-FAILED") {
+		return true, s
+	}
+	if strings.Contains(s, "sym.Assume violated natively") {
+		return false, s
+	}
+	if strings.Contains(s, "panic:") || strings.Contains(s, "fatal error:") {
+		// a native crash reproduces panic findings, and also any assertion finding
+		// whose native run dies before reaching the assertion
+		return true, s
+	}
+	return false, s
+}
+
+func (r *replayer) close() {}
+
+func packageName(dir string) (string, error) {
+	ents, err := os.ReadDir(dir)
+	if err != nil {
+		return "", err
+	}
+	for _, e := range ents {
+		if strings.HasSuffix(e.Name(), ".go") && !strings.HasSuffix(e.Name(), "_test.go") {
+			b, err := os.ReadFile(filepath.Join(dir, e.Name()))
+			if err != nil {
+				continue
+			}
+			for _, l := range strings.Split(string(b), "\n") {
+				if strings.HasPrefix(l, "package ") {
+					return strings.Fields(l)[1], nil
+				}
+			}
+		}
+	}
+	return "", fmt.Errorf("no package clause in %s", dir)
+}
+
+func harnessFuncs(dir string) ([]string, error) {
+	ents, err := os.ReadDir(dir)
+	if err != nil {
+		return nil, err
+	}
+	var out []string
+	for _, e := range ents {
+		if !strings.HasSuffix(e.Name(), ".go") {
+			continue
+		}
+		b, _ := os.ReadFile(filepath.Join(dir, e.Name()))
+		for _, l := range strings.Split(string(b), "\n") {
+			if strings.HasPrefix(l, "func Verif") && strings.Contains(l, "()") {
+				name := strings.TrimPrefix(l, "func ")
+				name = name[:strings.Index(name, "(")]
+				out = append(out, name)
+			}
+		}
+	}
+	sort.Strings(out)
+	return out, nil
+}
+
+func cmdReplay(args []string) int {
+	if len(args) < 1 {
+		fmt.Fprintln(os.Stderr, "usage: gosym replay <file>")
+		return 2
+	}
+	var rf replayFile
+	if err := readJSON(args[0], &rf); err != nil {
+		fmt.Fprintln(os.Stderr, err)
+		return 2
+	}
+	abs, _ := filepath.Abs(args[0])
+	switch rf.Kind {
+	case "deadlock", "leak", "race", "write-ro":
+		return replayInside(rf)
+	}
+	rp, err := newReplayer(rf.Func)
+	if err != nil {
+		fmt.Fprintln(os.Stderr, err)
+		return 2
+	}
+	ok, out := rp.run(abs, rf.Kind)
+	fmt.Println(out)
+	if ok {
+		fmt.Printf("REPRODUCED property=%s harness=%s site=%s\n", rf.Property, rf.Harness, rf.Site)
+		return 1
+	}
+	fmt.Println("not reproduced")
+	return 0
+}
+
+// replayInside re-executes a decision vector in the interpreter and prints the result.
+func replayInside(rf replayFile) int {
+	_, _, pkgs, err := buildOverlay()
+	if err != nil {
+		fmt.Fprintln(os.Stderr, err)
+		return 2
+	}
+	l, err := load(pkgs)
+	if err != nil {
+		fmt.Fprintln(os.Stderr, err)
+		return 2
+	}
+	fn, err := findFunc(l.prog, rf.Func)
+	if err != nil {
+		fmt.Fprintln(os.Stderr, err)
+		return 2
+	}
+	opts := defaultOpts(rf.Tier)
+	opts.Explore = rf.Explore
+	for k, v := range rf.Params {
+		opts.Params[k] = v
+	}
+	sess, err := smt.NewSession(opts.TimeoutMs)
+	if err != nil {
+		fmt.Fprintln(os.Stderr, err)
+		return 2
+	}
+	defer sess.Close()
+	res := interp.RunPath(l.world, fn, rf.Decision, opts, sess)
+	b, _ := json.MarshalIndent(res, "", " ")
+	fmt.Println(string(b))
+	if len(res.Findings) > 0 {
+		fmt.Printf("REPRODUCED property=%s harness=%s site=%s\n", rf.Property, rf.Harness, rf.Site)
+		return 1
+	}
+	return 0
+}
